@@ -699,6 +699,18 @@ func c09ExecA(in []string) []string {
 				s2 = "B/" + c09Codes(err) + "/" + proto.B(b)
 				if rc2 != nil {
 					r = rc2
+					// another asker that holds the returned request value but its own (equal) copy of the matched
+					// route: it is handed the stored outcome — same result, same request, no effect (any effect
+					// lands in the effect log of this instruction)
+					mc := *m
+					bound3, rc3, err3 := a.ctx.BindAndValidate(r, &mc)
+					b3 := ""
+					if bm, ok := bound3.(map[string]interface{}); ok && len(bm) > 0 {
+						b3 = c09Render(bm)
+					}
+					if rc3 != r || c09Codes(err3) != c09Codes(err) || b3 != b {
+						s2 += "!other-asker:" + c09Codes(err3)
+					}
 				}
 			case 6:
 				rc := a.ctx.ResetAuth(r)
